@@ -29,6 +29,7 @@ Check(rec, tm) ==
        \o Flag(rec.top <= rec.row /\ rec.row < rec.top + rows, "window", <<"cursor line outside the window", rec.top, rec.row, rows>>)
        \o Flag(bad = {}, "screen", <<"row", k0, "shown", IF bad = {} THEN <<>> ELSE tm.grid[k0 + 1],
                                       "repaint", IF bad = {} THEN <<>> ELSE RenderRow(rec.lines, rec.top, k0, rec.left, cols)>>)
+       \o Flag(cc >= 0 /\ cc < cols, "hwindow", <<"the cursor column is outside the columns shown", cc, rec.left, cols>>)
        \o Flag(tm.r = rec.row - rec.top /\ tm.c = Max2(0, Min2(cc, cols - 1)), "cursor",
                <<"terminal cursor", tm.r, tm.c, "expected", rec.row - rec.top, cc>>)
 
